@@ -34,6 +34,12 @@
 #include <parmcb/mpi/parmcb.hpp>
 #endif
 
+// explicit instantiation of the value classes: every non-template member function gets a body the checker can see, also overloads
+// that no statement below happens to select (ref-qualified operators, rarely used accessors)
+template class parmcb::SpVecGF2<std::size_t>;
+template class parmcb::SpVecFP<int>;
+template class parmcb::SpVecFP<long long>;
+
 namespace witness {
 
 template<class W>
